@@ -55,6 +55,11 @@ func c14Assertions(g genCombo, cases []shapes.Case) (string, map[int]string) {
 	}
 	for _, cs := range cases {
 		inst := ""
+		// the assertion function has to name every type parameter to instantiate the types it compares
+		for i := 0; strings.Contains(cs.TParamDecl, "[_ ") || strings.Contains(cs.TParamDecl, ", _ "); i++ {
+			cs.TParamDecl = strings.Replace(cs.TParamDecl, "[_ ", fmt.Sprintf("[Blank%d ", i), 1)
+			cs.TParamDecl = strings.Replace(cs.TParamDecl, ", _ ", fmt.Sprintf(", Blank%da ", i), 1)
+		}
 		if cs.TypeParams > 0 {
 			inst = "[" + strings.Join(tparamNames(cs.TParamDecl), ", ") + "]"
 		}
